@@ -33,8 +33,12 @@ pub const BAD: &[&str] = &[
     "#elif", "#if ()", "#if A &&",
 ];
 
-struct Style {
+pub struct Style {
+    /// indentation of source lines
     indent: &'static str,
+    /// indentation of directive lines (deliberately different from the source lines in some styles: a block that
+    /// follows a directive must start at its own column, not at the directive's)
+    dir_indent: &'static str,
     hash_gap: &'static str,
     trailing: &'static str,
     eol: &'static str,
@@ -42,10 +46,12 @@ struct Style {
     blank: &'static str,
 }
 
-const STYLES: [Style; 3] = [
-    Style { indent: "", hash_gap: "", trailing: "", eol: "\n", tight: false, blank: "" },
-    Style { indent: "  ", hash_gap: " ", trailing: " // note", eol: "\n", tight: true, blank: "   " },
-    Style { indent: "\t", hash_gap: "", trailing: "", eol: "\r\n", tight: false, blank: "\t" },
+const STYLES: [Style; 5] = [
+    Style { indent: "", dir_indent: "", hash_gap: "", trailing: "", eol: "\n", tight: false, blank: "" },
+    Style { indent: "  ", dir_indent: "  ", hash_gap: " ", trailing: " // note", eol: "\n", tight: true, blank: "   " },
+    Style { indent: "\t", dir_indent: "\t", hash_gap: "", trailing: "", eol: "\r\n", tight: false, blank: "\t" },
+    Style { indent: "    ", dir_indent: "", hash_gap: "", trailing: "", eol: "\n", tight: false, blank: " " },
+    Style { indent: "", dir_indent: "      ", hash_gap: "", trailing: " //", eol: "\n", tight: true, blank: "" },
 ];
 
 /// Returns (text, per line: column where the probe / directive starts)
@@ -59,7 +65,7 @@ pub fn render(lines: &[Value], style: &Style) -> String {
         let n = i + 1;
         let k = l["k"].as_str().unwrap_or("");
         let dir = |word: &str, rest: &str| -> String {
-            let mut s = format!("{}#{}{}", style.indent, style.hash_gap, word);
+            let mut s = format!("{}#{}{}", style.dir_indent, style.hash_gap, word);
             if !rest.is_empty() {
                 s.push(' ');
                 s.push_str(rest);
@@ -80,7 +86,7 @@ pub fn render(lines: &[Value], style: &Style) -> String {
             "endif" => dir("endif", ""),
             "bad" => {
                 let v = l["v"].as_u64().unwrap_or(1) as usize;
-                format!("{}{}{}", style.indent, BAD[(v - 1) % BAD.len()], style.trailing)
+                format!("{}{}{}", style.dir_indent, BAD[(v - 1) % BAD.len()], style.trailing)
             }
             _ => String::new(),
         };
@@ -102,7 +108,7 @@ impl Family for Preproc {
     fn run(&mut self, case: &Value) -> Outcome {
         let lines = case["lines"].as_array().cloned().unwrap_or_default();
         let cli = strs(&case["cli"]);
-        let which = (hash_str(&case["lines"].to_string()) % 3) as usize;
+        let which = (hash_str(&case["lines"].to_string()) % STYLES.len() as u64) as usize;
         let style = &STYLES[which];
         let text = render(&lines, style);
         let second = second_file(style.eol);
